@@ -386,6 +386,39 @@ func (b *Blob) ReadChunk(e *TOCEntry, size int64) ([]byte, error) {
 	return d[e.InnerOffset : e.InnerOffset+size], nil
 }
 
+// RangeCheck evaluates the TOC the way a lazily pulling reader uses it: the TOC carries no
+// compressed sizes, so the byte range to fetch for a chunk is [offset, next offset), where
+// "next offset" is the first different non-zero offset recorded by a later TOC entry of any
+// type (or the end of the payload area). Every data chunk's compressed stream must lie
+// inside that range, and an entry without data must not claim an offset inside the blob
+// that breaks this rule for its predecessors.
+func (b *Blob) RangeCheck() error {
+	es := b.TOC.Entries
+	for i, e := range es {
+		if !((e.Type == "reg" && e.Size > 0) || e.Type == "chunk") {
+			continue
+		}
+		end := b.PayloadEnd()
+		by := "the end of the payload area"
+		for _, n := range es[i+1:] {
+			if n.Offset != 0 && n.Offset != e.Offset {
+				end = n.Offset
+				by = fmt.Sprintf("the offset of the later TOC entry {%s %q size=%d}", n.Type, n.Name, n.Size)
+				break
+			}
+		}
+		si, ok := b.startIdx[e.Offset]
+		if !ok {
+			return fmt.Errorf("%s %q: offset %d is not the start of a compressed stream", e.Type, e.Name, e.Offset)
+		}
+		if st := b.Streams[si]; end <= e.Offset || st.End > end {
+			return fmt.Errorf("%s %q (chunkOffset %d): its compressed stream is [%d,%d), but the range a reader fetches for it is [%d,%d), bounded by %s",
+				e.Type, e.Name, e.ChunkOffset, st.Start, st.End, e.Offset, end, by)
+		}
+	}
+	return nil
+}
+
 // File is a non-chunk TOC entry with, for regular files, the payload reassembled from its chunks.
 type File struct {
 	Entry  *TOCEntry
